@@ -177,7 +177,7 @@ Lemma fix_idx_next f d s i x : py_nth d i = Some x -> s < x -> fix_idx (S f) d s
 Proof. intros E H. simpl. rewrite E. apply Qle_bool_false in H. rewrite H. reflexivity. Qed.
 
 (* ------------------------------------------------------------------ interpolate_position *)
-Definition origin : pt := (0, 0).
+Definition origin : pt := (0, 0, 0).
 
 Lemma interpolate_at C R L ls s idx :
   (idx < List.length ls)%nat ->
@@ -333,7 +333,7 @@ Proof.
   induction P as [|a [|b r] IH]; intros S' HP HS Hj; [congruence | |].
   - destruct S' as [|c t]; [congruence|]. simpl in Hj. subst c. reflexivity.
   - change ((a :: b :: r) ++ tl S') with (a :: (b :: r) ++ tl S').
-    change (deltas (a :: (b :: r) ++ tl S')) with ((px b - px a, py b - py a) :: deltas ((b :: r) ++ tl S')).
+    change (deltas (a :: (b :: r) ++ tl S')) with ((px b - px a, py b - py a, pz b - pz a) :: deltas ((b :: r) ++ tl S')).
     rewrite IH; [reflexivity | discriminate | exact HS | exact Hj].
 Qed.
 
@@ -364,4 +364,46 @@ Proof.
   assert (Vc : Forall2 (fun d l => 0 <= l /\ l * l == norm2 d) (deltas Cp ++ deltas Cs) (lp ++ ls))
     by (apply Forall2_app; assumption).
   rewrite (valid_lens_sum_unique _ _ _ Vm Vc). apply sumQ_app.
+Qed.
+
+(* valid lengths of the same polyline agree prefix sum by prefix sum *)
+Lemma valid_lens_prefix_unique D : forall ls ls' i,
+  Forall2 (fun d l => 0 <= l /\ l * l == norm2 d) D ls ->
+  Forall2 (fun d l => 0 <= l /\ l * l == norm2 d) D ls' -> sumQ (firstn i ls) == sumQ (firstn i ls').
+Proof.
+  induction D as [|d D IH]; intros ls ls' i H H'; inversion H; inversion H'; subst; [reflexivity|].
+  destruct i as [|i]; [reflexivity|]. cbn [firstn sumQ].
+  rewrite (IH _ _ i H4 H9).
+  destruct H2, H7. rewrite (len_unique y y0 (norm2 d)); auto. reflexivity.
+Qed.
+
+Lemma Forall2_len {A B} (P : A -> B -> Prop) a b : Forall2 P a b -> List.length a = List.length b.
+Proof. induction 1; simpl; congruence. Qed.
+
+(* the cumulative distance of the merged lanelet (recomputed from ITS centre line, for whatever valid length
+   oracle) is, entry by entry, the predecessor's cumulative distance followed by the successor's shifted by the
+   predecessor's length — whichever of the two was passed first *)
+Lemma merge_distance Cp Cs lp ls lm :
+  Cp <> [] -> Cs <> [] -> last Cp origin = hd origin Cs ->
+  valid_lens Cp lp -> valid_lens Cs ls -> valid_lens (Cp ++ tl Cs) lm ->
+  List.length (cum lm) = (List.length (cum lp) + List.length ls)%nat /\
+  (forall i, (i <= List.length lp)%nat -> nth i (cum lm) 0 == nth i (cum lp) 0) /\
+  (forall j, (j <= List.length ls)%nat ->
+     nth (List.length lp + j) (cum lm) 0 == last (cum lp) 0 + nth j (cum ls) 0).
+Proof.
+  intros HP HS Hj Vp Vs Vm.
+  unfold valid_lens in *. rewrite (deltas_app Cp Cs HP HS Hj) in Vm.
+  assert (Vc : Forall2 (fun d l => 0 <= l /\ l * l == norm2 d) (deltas Cp ++ deltas Cs) (lp ++ ls))
+    by (apply Forall2_app; assumption).
+  assert (Hlen : List.length lm = (List.length lp + List.length ls)%nat).
+  { rewrite <- app_length. transitivity (List.length (deltas Cp ++ deltas Cs)).
+    - symmetry. eapply Forall2_len. exact Vm.
+    - eapply Forall2_len. exact Vc. }
+  split; [rewrite !cum_length; lia|]. split.
+  - intros i Hi. rewrite !cum_nth by lia.
+    rewrite (valid_lens_prefix_unique _ _ _ i Vm Vc). rewrite firstn_app.
+    replace (i - List.length lp)%nat with 0%nat by lia. rewrite firstn_O, app_nil_r. reflexivity.
+  - intros j Hjl. rewrite cum_last, !cum_nth by lia.
+    rewrite (valid_lens_prefix_unique _ _ _ (List.length lp + j) Vm Vc). rewrite firstn_app_2.
+    apply sumQ_app.
 Qed.
